@@ -192,11 +192,18 @@ def check(ctx: Ctx) -> None:
 
     with ctx.obligation("C07.e", "after-items-once") as ob:
         fg = repo.func(f"{GB}.Channel._getremoteerror")
-        pops = [c for c in repo.calls_in(fg) if callee_attr(c) == "pop" and "_remoteerrors" in unparse(c.func)]
-        ob.site(fg, pops[0] if pops else fg.node, "stored error consumed by pop(0)")
-        if len(pops) != 1 or [repo.fold_in(a, fg) for a in pops[0].args] != [0]:
+        from ..util import xtext as _xt
+        pops = [c for c in repo.calls_in(fg) if callee_attr(c) in ("pop", "popleft") and "_remoteerrors" in _xt(repo, fg, c.func)]
+        # FIFO consumption: list.pop(0), or deque.popleft() when the field is created as a deque
+        fci = repo.func(f"{GB}.Channel.__init__")
+        mk = [n.value for n in repo.own_nodes(fci) if isinstance(n, (ast.Assign, ast.AnnAssign)) and "_remoteerrors" in unparse(n.targets[0] if isinstance(n, ast.Assign) else n.target) and n.value is not None]
+        is_deque = bool(mk) and isinstance(mk[0], ast.Call) and unparse(mk[0].func).split(".")[-1] == "deque"
+        fifo = len(pops) == 1 and ((callee_attr(pops[0]) == "pop" and not is_deque and [repo.fold_in(a, fg) for a in pops[0].args] == [0])
+                                   or (callee_attr(pops[0]) == "popleft" and is_deque and not pops[0].args))
+        ob.site(fg, pops[0] if pops else fg.node, "stored error consumed oldest-first (pop(0) / deque.popleft())", deque=is_deque)
+        if not fifo:
             ob.violation(fg, fg.node, "a stored RemoteError is not consumed with pop(0): it would be raised repeatedly or out of order")
-        subs = [n for n in repo.own_nodes(fg) if isinstance(n, ast.Subscript) and "_remoteerrors" in unparse(n.value)]
+        subs = [n for n in repo.own_nodes(fg) if isinstance(n, ast.Subscript) and "_remoteerrors" in _xt(repo, fg, n.value)]
         for s in subs:
             ob.violation(fg, s, "a stored RemoteError is read without being consumed")
         fr = repo.func(f"{GB}.Channel.receive")
